@@ -4,9 +4,12 @@
 WT="$1"; ID="$2"; NAME="${3:-$ID}"
 cd "$WT" || exit 3
 [ -f seed/patch.diff ] || { echo "no seed/patch.diff"; exit 3; }
-git stash -q || exit 3
+# (no git stash: the stash is shared between worktrees)
+git diff > /tmp/confirm_$$.diff
+git apply -R /tmp/confirm_$$.diff || exit 3
 PYTHONPATH="$WT" /venv/bin/python seed/demo.py > /tmp/demo_clean.out 2>&1; RC_CLEAN=$?
-git stash pop -q || exit 3
+git apply /tmp/confirm_$$.diff || exit 3
+rm -f /tmp/confirm_$$.diff
 PYTHONPATH="$WT" /venv/bin/python seed/demo.py > /tmp/demo_seed.out 2>&1; RC_SEED=$?
 echo "demo without change: exit $RC_CLEAN ; with change: exit $RC_SEED"
 /verif/tools/baseline.py --fast --root="$WT" > /tmp/base_seed.out 2>&1; RC_BASE=$?
